@@ -308,7 +308,7 @@ fn all_handles<K: Kern<D>, const D: usize>(w: &World<K, D>, before: &Snap, log: 
                     do_undo(w, &before, &Op::FlipK3 { cell: sel(ci, nc), a: fi, b: fj }, log, counts);
                 }
             }
-            do_undo(w, &before, &Op::FlipK1Insert { cell: sel(ci, nc), w: vec![1; D + 1] }, log, counts);
+            do_undo(w, &before, &Op::FlipK1Insert { cell: sel(ci, nc), w: vec![1; D + 1], uuid: Default::default() }, log, counts);
             if !log.violations.is_empty() {
                 return;
             }
@@ -360,7 +360,7 @@ fn all_handles<K: Kern<D>, const D: usize>(w: &World<K, D>, before: &Snap, log: 
             do_undo(w, &before, &Op::FlipK3Inv { a: exact(0, nv), b: exact(nv / 2, nv), c: exact(nv - 1, nv) }, log, counts);
         }
         // adversarial handles
-        for op in [Op::FlipK2 { cell: 0xFF00, facet: 0 }, Op::FlipK2 { cell: 0, facet: 255 }, Op::FlipK3 { cell: 0, a: 1, b: 1 }, Op::FlipK3 { cell: 0xFF01, a: 0, b: 1 }, Op::FlipK1Remove { v: 0xFF00 }, Op::FlipK2Inv { a: 0, b: 0 }, Op::FlipK1Insert { cell: 0xFF03, w: vec![1; D + 1] }] {
+        for op in [Op::FlipK2 { cell: 0xFF00, facet: 0 }, Op::FlipK2 { cell: 0, facet: 255 }, Op::FlipK3 { cell: 0, a: 1, b: 1 }, Op::FlipK3 { cell: 0xFF01, a: 0, b: 1 }, Op::FlipK1Remove { v: 0xFF00 }, Op::FlipK2Inv { a: 0, b: 0 }, Op::FlipK1Insert { cell: 0xFF03, w: vec![1; D + 1], uuid: Default::default() }] {
             do_undo(w, &before, &op, log, counts);
         }
     }
